@@ -78,6 +78,16 @@ claim("C01", "exploration",
       "Channel); exception payload details beyond class and plain args belong to C09.",
       "DESIGN.md §4 C01")
 
+claim("C03", "exploration",
+      "property-based testing (Hypothesis): per-class constructed values and send/echo/drop/re-send histories against a "
+      "model; oracle written from the statement (plain() predicate, identity by `is`)",
+      "Values of every immutable shape and every kind of non-plain object (subclass instances, containers, functions, "
+      "classes, modules, buried in tuples and kwargs) are sent across a real connection pair and the receiving side "
+      "reports what it got; histories check proxy identity and echo identity against a slot model; obtain/deliver are "
+      "checked for equality and independence under classic services.",
+      "plain() is an independent transcription of the statement; two-hop chains are not generated.",
+      "DESIGN.md §4 C03")
+
 NOT_YET = "check not built yet in this revision (see DESIGN.md §8 build order)"
 
 
